@@ -22,4 +22,5 @@ a82f9f4 C20
 85aecbd C20
 b5b2aae C19
 436911d C14
+3b6c4f6 C19
 LIST
